@@ -1,4 +1,282 @@
 package main
 
-// syntactic shapes the models rely on (filled in per property as the models grow)
-func extractShapes() {}
+import (
+	"go/ast"
+	"go/token"
+	"os"
+	"path/filepath"
+	"regexp"
+	"strings"
+)
+
+// syntactic shapes the hand-written models rely on. Each becomes a Bool in Generated/Facts.lean;
+// Properties files assert `fact = true` by `rfl`/`decide`, so a source change that flips a shape
+// breaks a proof obligation. A function that cannot be found at all is an extraction failure.
+
+func hasRecover(fd *ast.FuncDecl) bool {
+	found := false
+	if fd == nil || fd.Body == nil {
+		return false
+	}
+	for _, st := range fd.Body.List {
+		ds, ok := st.(*ast.DeferStmt)
+		if !ok {
+			continue
+		}
+		ast.Inspect(ds, func(n ast.Node) bool {
+			if c, ok := n.(*ast.CallExpr); ok {
+				if id, ok := c.Fun.(*ast.Ident); ok && id.Name == "recover" {
+					found = true
+				}
+			}
+			return true
+		})
+	}
+	return found
+}
+
+// stmtIndex returns the index of the first top-level statement of fd whose source text matches pred
+func stmtIndex(fd *ast.FuncDecl, pred func(string) bool) int {
+	if fd == nil || fd.Body == nil {
+		return -1
+	}
+	for i, st := range fd.Body.List {
+		if pred(stmtString(st)) {
+			return i
+		}
+	}
+	return -1
+}
+
+func stmtString(st ast.Stmt) string {
+	switch s := st.(type) {
+	case *ast.ExprStmt:
+		return exprString(s.X)
+	case *ast.GoStmt:
+		return "go " + exprString(s.Call)
+	case *ast.AssignStmt:
+		l, r := []string{}, []string{}
+		for _, e := range s.Lhs {
+			l = append(l, exprString(e))
+		}
+		for _, e := range s.Rhs {
+			r = append(r, exprString(e))
+		}
+		return strings.Join(l, ", ") + " " + s.Tok.String() + " " + strings.Join(r, ", ")
+	case *ast.IfStmt:
+		init := ""
+		if s.Init != nil {
+			init = stmtString(s.Init) + "; "
+		}
+		return "if " + init + exprString(s.Cond)
+	case *ast.ReturnStmt:
+		r := []string{}
+		for _, e := range s.Results {
+			r = append(r, exprString(e))
+		}
+		return "return " + strings.Join(r, ", ")
+	case *ast.DeferStmt:
+		return "defer " + exprString(s.Call)
+	case *ast.RangeStmt:
+		return "for range " + exprString(s.X)
+	}
+	return ""
+}
+
+func allStmts(fd *ast.FuncDecl) []string {
+	out := []string{}
+	if fd == nil || fd.Body == nil {
+		return out
+	}
+	ast.Inspect(fd.Body, func(n ast.Node) bool {
+		if st, ok := n.(ast.Stmt); ok {
+			if s := stmtString(st); s != "" {
+				out = append(out, s)
+			}
+		}
+		return true
+	})
+	return out
+}
+
+func anyMatch(l []string, re string) bool {
+	r := regexp.MustCompile(re)
+	for _, s := range l {
+		if r.MatchString(s) {
+			return true
+		}
+	}
+	return false
+}
+
+// every `for _, v := range …` loop of fd whose body takes `&v` must first copy v (`v := v`),
+// unless the module's language version gives each iteration its own variable (go ≥ 1.22)
+func loopVarSafe(fd *ast.FuncDecl, perIteration bool) bool {
+	if fd == nil || fd.Body == nil {
+		return false
+	}
+	ok := true
+	ast.Inspect(fd.Body, func(n ast.Node) bool {
+		rs, isRange := n.(*ast.RangeStmt)
+		if !isRange || rs.Value == nil {
+			return true
+		}
+		v := exprString(rs.Value)
+		takesAddr, copied := false, false
+		for _, st := range rs.Body.List {
+			if as, isAs := st.(*ast.AssignStmt); isAs && as.Tok == token.DEFINE && len(as.Lhs) == 1 && len(as.Rhs) == 1 &&
+				exprString(as.Lhs[0]) == v && exprString(as.Rhs[0]) == v {
+				copied = true
+			}
+		}
+		ast.Inspect(rs.Body, func(m ast.Node) bool {
+			if u, isU := m.(*ast.UnaryExpr); isU && u.Op == token.AND && exprString(u.X) == v {
+				takesAddr = true
+			}
+			return true
+		})
+		if takesAddr && !copied && !perIteration {
+			ok = false
+		}
+		return true
+	})
+	return ok
+}
+
+func goModPerIteration() bool {
+	b, err := os.ReadFile(filepath.Join(*repo, "go.mod"))
+	if err != nil {
+		failf("go.mod unreadable")
+		return false
+	}
+	m := regexp.MustCompile(`(?m)^go\s+(\d+)\.(\d+)`).FindStringSubmatch(string(b))
+	if m == nil {
+		failf("go.mod: no go directive")
+		return false
+	}
+	major, minor := atoiSafe(m[1]), atoiSafe(m[2])
+	return major > 1 || (major == 1 && minor >= 22)
+}
+
+func atoiSafe(s string) int {
+	n := 0
+	for _, c := range s {
+		n = n*10 + int(c-'0')
+	}
+	return n
+}
+
+func extractShapes() {
+	// --- conn.go
+	setup := findFunc("wasp/conn.go", "*setupWorker", "setup")
+	ps := findFunc("wasp/conn.go", "*connectionWorker", "processSession")
+	addFact("recoverInSetup", "Bool", boolLean(hasRecover(setup)), "setupWorker.setup recovers from decoder panics")
+	addFact("recoverInProcessSession", "Bool", boolLean(hasRecover(ps)), "connectionWorker.processSession recovers from decoder panics")
+	if setup != nil {
+		iExt := stmtIndex(setup, func(s string) bool { return s == "session.ExtendDeadline()" })
+		iServe := stmtIndex(setup, func(s string) bool { return strings.HasPrefix(s, "go worker.serve(") })
+		addFact("keepaliveArmedBeforeServe", "Bool", boolLean(iExt >= 0 && iServe >= 0 && iExt < iServe), "the keep-alive deadline is armed before the session loop starts")
+	}
+	if sh := findFunc("wasp/conn.go", "*manager", "shutdownSession"); sh != nil {
+		st := allStmts(sh)
+		addFact("shutdownIdempotent", "Bool", boolLean(anyMatch(st, `^if s\.local\.Delete\(session\.ID\(\)\) == nil$`)), "a second shutdown of the same session is a no-op")
+		addFact("shutdownClosesConn", "Bool", boolLean(anyMatch(st, `^session\.Close\(\)$`)), "the connection of an ended session is closed")
+		addFact("shutdownGuardOwnRecordOnly", "Bool", boolLean(anyMatch(st, `^if metadata\.SessionID != session\.ID\(\)$`)), "the session record is deleted unless the client id resolves to another session")
+		addFact("willOnlyIfNotDisconnected", "Bool", boolLean(anyMatch(st, `^if !session\.Disconnected$`)), "the will is published only when the session did not DISCONNECT")
+	}
+	// --- publish.go
+	if fd := findFunc("wasp/publish.go", "*PublishDistributor", "Distribute"); fd != nil {
+		st := allStmts(fd)
+		addFact("localAppendErrorFails", "Bool", boolLean(anyMatch(st, `^if err := storer\.Storage\.Append\(publish\); err != nil$`) && anyMatch(st, `^failed = true$`)), "a failed local Append makes Distribute fail")
+	}
+	// --- packets.go: the acknowledgement callback runs only on the err == nil branch
+	if fd := findFunc("wasp/packets.go", "*packetProcessor", "Run"); fd != nil {
+		okShape := false
+		ast.Inspect(fd.Body, func(n ast.Node) bool {
+			is, ok := n.(*ast.IfStmt)
+			if !ok || exprString(is.Cond) != "err != nil" || is.Else == nil {
+				return true
+			}
+			inThen, inElse := false, false
+			ast.Inspect(is.Body, func(m ast.Node) bool {
+				if c, ok := m.(*ast.CallExpr); ok && exprString(c.Fun) == "in.cb" {
+					inThen = true
+				}
+				return true
+			})
+			ast.Inspect(is.Else, func(m ast.Node) bool {
+				if c, ok := m.(*ast.CallExpr); ok && exprString(c.Fun) == "in.cb" {
+					inElse = true
+				}
+				return true
+			})
+			if inElse && !inThen {
+				okShape = true
+			}
+			return true
+		})
+		addFact("ackCallbackOnlyOnSuccess", "Bool", boolLean(okShape), "the publish worker invokes the acknowledgement callback only when Distribute returned no error")
+	}
+	// --- ack/queue.go: the packet type is checked before the entry is deleted
+	if fd := findFunc("wasp/ack/queue.go", "*queue", "Ack"); fd != nil {
+		st := allStmts(fd)
+		iGet, iCmp, iDel := -1, -1, -1
+		for i, s := range st {
+			if iGet < 0 && strings.Contains(s, "q.msg.Get(k)") {
+				iGet = i
+			}
+			if iCmp < 0 && strings.Contains(s, "!= pkt.Type()") {
+				iCmp = i
+			}
+			if iDel < 0 && strings.Contains(s, "q.msg.Delete(k)") {
+				iDel = i
+			}
+		}
+		addFact("ackTypeCheckedBeforeDelete", "Bool", boolLean(iGet >= 0 && iCmp > iGet && iDel > iCmp), "Ack compares the packet type before it removes the entry")
+	}
+	// --- nodes.go: wills of a failed node's sessions are published inside their mount point
+	if fd := findFunc("wasp/nodes.go", "*nodeMemberManager", "NotifyGossipLeave"); fd != nil {
+		pref := false
+		ast.Inspect(fd.Body, func(n ast.Node) bool {
+			if kv, ok := n.(*ast.KeyValueExpr); ok && exprString(kv.Key) == "Topic" && strings.Contains(exprString(kv.Value), "session.MountPoint") {
+				pref = true
+			}
+			return true
+		})
+		addFact("nodeFailureWillPrefixed", "Bool", boolLean(pref), "NotifyGossipLeave prefixes the will topic with the session's mount point")
+	}
+	// --- distributed: bulk operations and dumps carry one distinct entry per element
+	per := goModPerIteration()
+	addFact("loopVarPerIteration", "Bool", boolLean(per), "go.mod language version gives each loop iteration its own variable (go >= 1.22)")
+	safe := true
+	for _, f := range [][3]string{
+		{"wasp/distributed/sessions.go", "*sessionMetadatasState", "dump"},
+		{"wasp/distributed/sessions.go", "*sessionMetadatasState", "DeletePeer"},
+		{"wasp/distributed/subscriptions.go", "*subscriptionsState", "dump"},
+		{"wasp/distributed/subscriptions.go", "*subscriptionsState", "DeletePeer"},
+		{"wasp/distributed/subscriptions.go", "*subscriptionsState", "DeleteSession"},
+	} {
+		if !loopVarSafe(findFunc(f[0], f[1], f[2]), per) {
+			safe = false
+		}
+	}
+	addFact("bulkEventsCarryDistinctEntries", "Bool", boolLean(safe), "no broadcast/snapshot loop appends the address of a shared loop variable")
+	// dumps include removed entries (no detour through All())
+	dumpAll := false
+	for _, f := range [][3]string{{"wasp/distributed/sessions.go", "*sessionMetadatasState", "dump"}, {"wasp/distributed/subscriptions.go", "*subscriptionsState", "dump"}} {
+		if fd := findFunc(f[0], f[1], f[2]); fd != nil {
+			if anyMatch(allStmts(fd), `s\.All\(\)`) {
+				dumpAll = true
+			}
+		}
+	}
+	addFact("snapshotsIncludeTombstones", "Bool", boolLean(!dumpAll), "full-state dumps iterate the stored entries, not the filtered listing")
+	// --- packets.go: inbound QoS 2 handshakes live in their own key space
+	if fd := findFunc("wasp/packets.go", "", "inboundPrefix"); fd != nil {
+		addFact("inboundHandshakesOwnKeySpace", "Bool", boolLean(anyMatch(allStmts(fd), `^return session\.ID\(\) \+ "/in"$`)), "client-chosen ids are keyed apart from broker-chosen ids")
+	}
+	// --- writer.go: ExpireAt / deliveries skip sessions that are not registered
+	if fd := findFunc("wasp/writer.go", "*writer", "send"); fd != nil {
+		addFact("writerSkipsUnregistered", "Bool", boolLean(anyMatch(allStmts(fd), `^if session != nil$`)), "send writes only to sessions present in the local registry")
+	}
+}
